@@ -237,6 +237,17 @@ for _p, _t in {
  "C15": "Round g: observers of a SeparationConstraint reading the freed guideline variable (known finding); ~Router frees objects of pending additions.",
 }.items():
     CHECKS[_p]["text"] = CHECKS[_p]["text"].rstrip() + " " + _t
+# clauses added in round i
+for _p, _t in {
+ "C01": "Round i: the static solver never looks at Constraint::equality (known finding).",
+ "C04": "Round i: walks of the intrusive edge / vertex lists step to the next element before a call that may move the current one to another list.",
+ "C05": "Round i: the bend estimate is consistent, not only admissible (the search never re-opens a state); a free end point gets a pass-through vertex at its position (vertical-only end points: known finding).",
+ "C06": "Round i: the crossing pass is not run on its own output (known finding); list walks as in C04.",
+ "C07": "Round i: every compound constraint of a list is offered to every solver set-up; translators never read makeFeasible's bookkeeping.",
+ "C09": "Round i: every fixed rectangle gets a heavy variable, whatever it overlaps at the start.",
+ "C13": "Round i: the working copy of a resized node is a sliver at the node's current centre; coincident bends are recognised up to rounding.",
+}.items():
+    CHECKS[_p]["text"] = CHECKS[_p]["text"].rstrip() + " " + _t
 # clauses added in round h
 for _p, _t in {
  "C06": "Round h: the three producers of the contains sets agree (shared with C03); phase conditions see leaves nested in an earlier sibling if.",
